@@ -105,6 +105,43 @@ def run(ctx):
                                   correspondence="hl: targets(impl) = targets(model)", detail="%s; expression %r" % (what, expr))
             if disagreements >= 8:
                 break
+    # ---- end to end: the hosts the real binary contacts for `-w EXPR` (opt.c's own second-bracket pass included) ----
+    import realeng
+    real = realeng.Real(ctx, tag="real01", null_exec=True,
+                        extra_mods=[(os.path.join(vlib.VERIF, "harness", "c02_listrcmd.c"), "c02list")])
+    logf = os.path.join(ctx.scratch, "contact01.log")
+    e2e = []
+    rr = ctx.rng("e2e")
+    for _ in range(120 if quick else 2500):
+        t = hlgen.gen_tree(rr)
+        if hlgen.in_domain(t) and hlgen.tree_weight(t) <= 400:
+            e2e.append(t)
+    # one prefix whose ranges do not compress: several hundred separate numbers (the bracketed form of the prefix
+    # exceeds any small fixed buffer), alone and next to other hosts
+    for (step, cnt, pfx) in ((2, 300, b"sc"), (3, 700, b"q"), (2, 260, b"n0")):
+        rs = [(b"%d" % (100 + step * k), None) for k in range(cnt)]
+        e2e.append([("br", pfx, rs, ("end",)), ("plain", b"zlast")])
+    ne2e = 0
+    for t in e2e:
+        expr = hlgen.render(t, hlgen.gen_seps(rr, len(t)))
+        want = hlgen.denote(t)
+        try:
+            os.unlink(logf)
+        except OSError:
+            pass
+        rc, o, e = real.run(["-R", "c02list", "-f", "1", "-w", expr, "true"], env={"C02_CONTACT_LOG": logf}, timeout=60, stdin=b"")
+        ne2e += 1
+        try:
+            got = [l.split(b" ", 1)[1] for l in open(logf, "rb").read().split(b"\n") if b" " in l]
+        except OSError:
+            got = []
+        if got != want:
+            k = next((i for i, (a, b) in enumerate(zip(got, want)) if a != b), min(len(got), len(want)))
+            ctx.violation("input", case={"args": ["-w", expr.decode("latin-1")[:3000]]}, expected="%d hosts, the expansion" % len(want),
+                          observed="%d hosts contacted; first difference at position %d: %r vs %r" % (len(got), k, got[k:k + 2], want[k:k + 2]), engine="args",
+                          detail="the hosts pdsh contacts for -w %r differ from the mathematical expansion" % expr[:160])
+            break
+    stats["end_to_end_binary_runs"] = ne2e
     have_input = any(v["kind"] != "no-failing-input-found" for v in ctx.violations)
     vlib.report_proof_break(ctx, have_input)
     cov = vlib.proof_coverage(ctx, {
